@@ -5,7 +5,7 @@
 set -u
 cd "$(dirname "$0")/.."
 export GOFLAGS=-mod=mod GOPROXY=off GOSUMDB=off GOTOOLCHAIN=local
-DIR=$1; SECS=${2:-50}; PAT=${3:-}
+DIR=$(cd "$1" && pwd); SECS=${2:-50}; PAT=${3:-}
 (cd sim/simctl && go build -o ../../bin/simctl .) || exit 2
 T=$(mktemp -d /tmp/geosim-benign.XXXXXX)
 trap 'rm -rf "$T"' EXIT
